@@ -413,6 +413,14 @@ func Substr(s, lo, hi *Term) *Term {
 	if lo.Key() == hi.Key() {
 		return Str("")
 	}
+	// (a ++ rest)[len(a):len(a ++ rest)] = rest
+	if s.Op == "str.++" && len(s.Args) >= 2 && hi.Key() == StrLen(s).Key() {
+		for k := 1; k < len(s.Args); k++ {
+			if lo.Key() == StrLen(Concat(s.Args[:k]...)).Key() {
+				return Concat(s.Args[k:]...)
+			}
+		}
+	}
 	// substr of substr
 	if s.Op == "str.substr" {
 		base, l0 := s.Args[0], s.Args[1]
